@@ -204,6 +204,7 @@ def ucall(f, args, ret=None):
         m[n] = ref(f"{n}_c{_SITE[0]}")
     return {"k": "ucall", "f": f["name"], "args": args, "ret": ret or "", "aw": f["async"], "body": _rename(f["body"], m)}
 def assume(c): return {"k": "assume", "c": c}                 # precondition in a reference description (prints nothing)
+def alwaysblock(body): return {"k": "alwaysblock", "body": body}       # with cohdl.always: <concurrent assignments>
 def always_(n, e): return {"k": "always", "n": n, "e": e}      # n = cohdl.always(e)
 def local(n, ty, init, delayed=False): return {"k": "local", "n": n, "ty": ty, "init": init, "delayed": 1 if delayed else 0}
 def waitfor(n, allow_zero=False, via="std"):
@@ -353,6 +354,9 @@ class Printer:
                 out.append(f"{pad}{s['n']} = {self.expr(s['e'])}")
             elif k == "always":
                 out.append(f"{pad}{s['n']} = cohdl.always({self.expr(s['e'])})")
+            elif k == "alwaysblock":
+                out.append(f"{pad}with cohdl.always:")
+                self.stmts(s["body"], ind + 1, out)
             elif k == "assume":
                 out.append(f"{pad}pass  # assume {self.expr(s['c'])}")
             elif k == "if":
@@ -471,6 +475,8 @@ class Printer:
                 self.augmented(s["th"], acc)
                 self.augmented(s["el"], acc)
             elif s["k"] == "while":
+                self.augmented(s["body"], acc)
+            elif s["k"] == "alwaysblock":
                 self.augmented(s["body"], acc)
             elif s["k"] == "match":
                 for c in s["cases"]:
